@@ -681,20 +681,20 @@ def replay_asym(alg_i, key_i, sig_i, vr):
         half = len(sig) // 2
     if not vr:
         sig = bytes([sig[0] ^ 1]) + sig[1:]
-    cands = [[sig, sig[:-1], b"\x00" + sig[:half] + b"\x00" + sig[half:], b"", sig + b"\x00"][sig_i]]
+    cands = [(si, [sig, sig[:-1], b"\x00" + sig[:half] + b"\x00" + sig[half:], b"", sig + b"\x00"][sig_i])]
     if sig_i in (1, 3) and kind == "RSA" and own is not None and vr:
         # the model says: a signature SHORTER than the modulus reached the primitive and was judged valid.  The concrete way to get
-        # that verdict from pyca: a valid signature whose first octet is zero, with that octet removed (same integer)
-        for _ in range(4000):
-            s2 = R.jws_sign(own, jwk, si)
+        # that verdict from pyca: a valid signature whose first octet is zero, with that octet removed (same integer).  PSS is
+        # randomised (re-sign); PKCS1v15 is deterministic (vary a header member)
+        for i in range(4000):
+            si2 = si if own[:2] == "PS" else R.b64e(json.dumps({"alg": alg, "kid": str(i)}, separators=(",", ":")).encode()).encode() + b"." + pseg
+            s2 = R.jws_sign(own, jwk, si2)
             if s2[0] == 0:
-                cands.append(s2[1:])
+                cands.append((si2, s2[1:]))
                 break
-            if own[:2] == "RS":
-                break                    # deterministic padding: re-signing gives the same octets
     last = None
-    for sg in cands:
-        token = si + b"." + R.b64e(sg).encode()
+    for sinput, sg in cands:
+        token = sinput + b"." + R.b64e(sg).encode()
         try:
             obj = jws.deserialize_compact(token, JWKRegistry.import_key(R.public_jwk(jwk)), [alg])
         except Exception as e:  # noqa
